@@ -547,6 +547,69 @@ def section_solvers():
                     fail("solvers", "direct_greens_function: (E-H)x != P v or x not in range of P", cplx=cplx, degenerate=degenerate)
             except Exception as e:
                 fail("solvers", "direct solver raised", cplx=cplx, degenerate=degenerate, error=repr(e)[:300])
+    # non-Hermitian H_0 with biorthogonal explicit bases (R, L): random non-normal H_0, and H_0 whose left eigenvector vanishes on the
+    # rows where the right eigenvector is largest (the equations that can be dropped are determined by the LEFT kernel vectors)
+    for cplx in (False, True):
+        for kind in ("random", "left-vanishes-on-right-pivot", "left-tiny-on-right-pivot", "degenerate"):
+            cases += 1
+            n = 7
+            B = rng.normal(size=(n - 2, n - 2)) + (1j * rng.normal(size=(n - 2, n - 2)) if cplx else 0)
+            wB, SB_ = np.linalg.eig(B)
+            if not cplx:   # keep a real spectrum for real data
+                wB = np.sort(rng.normal(size=n - 2)) * 2 + 5
+                SB_ = rng.normal(size=(n - 2, n - 2))
+            E0 = 0.7 + (0.3j if cplx else 0)
+            if kind == "random":
+                S = rng.normal(size=(n, n)) + (1j * rng.normal(size=(n, n)) if cplx else 0)
+                w = np.concatenate(([E0, E0 + 1.5], wB))
+                H = S @ np.diag(w) @ np.linalg.inv(S)
+                Rf, Lf = S, np.linalg.inv(S).conj().T
+                lev = [0]
+            elif kind == "degenerate":
+                S = rng.normal(size=(n, n)) + (1j * rng.normal(size=(n, n)) if cplx else 0)
+                w = np.concatenate(([E0, E0], wB))
+                H = S @ np.diag(w) @ np.linalg.inv(S)
+                Rf, Lf = S, np.linalg.inv(S).conj().T
+                lev = [0, 1]
+            else:
+                a, delta = 0.9, (0.0 if kind == "left-vanishes-on-right-pivot" else 1e-13)
+                A = E0 * np.eye(2) - np.array([[1.0, -1 / a], [delta, -delta / a]])
+                H = np.zeros((n, n), dtype=complex if cplx else float)
+                H[:2, :2] = A
+                H[2:, 2:] = SB_ @ np.diag(wB) @ np.linalg.inv(SB_)
+                R0 = np.zeros((n, 1), dtype=H.dtype)
+                R0[:2, 0] = (1.0, a)
+                L0 = np.zeros((n, 1), dtype=H.dtype)
+                L0[:2, 0] = (-np.conj(delta), 1.0)
+                L0 = L0 / np.conj((L0.conj().T @ R0)[0, 0])
+                Rf, Lf, lev = R0, L0, [0]
+            K, L = Rf[:, lev], Lf[:, lev]
+            if np.abs(L.conj().T @ K - np.eye(len(lev))).max() > 1e-9 or np.abs((E0 * np.eye(n) - H) @ K).max() > 1e-9 or np.abs(L.conj().T @ (E0 * np.eye(n) - H)).max() > 1e-9:
+                fail("solvers", "battery error: (R, L) is not a biorthonormal pair of kernel bases", kind=kind)
+                continue
+            Pk = np.eye(n) - K @ L.conj().T
+            h = sparse.csr_array(H)
+            try:
+                gf = direct_greens_function(h, E0, kernel_vectors=K, left_kernel_vectors=L)
+                vec = rng.normal(size=n) + (1j * rng.normal(size=n) if cplx else 0)
+                x = gf(vec.copy())
+                err = np.abs((E0 * np.eye(n) - H) @ x - Pk @ vec).max()
+                if not err < 1e-7 or not np.abs(Pk @ x - x).max() < 1e-7:
+                    fail("solvers", "direct_greens_function with biorthogonal kernel bases: (E-H)x != P v or x not in range of P", cplx=cplx, kind=kind, err=float(err))
+                ss = solve_sylvester_direct(h, [(K, L)], nonhermitian=True)
+                Ed = np.diag(np.full(len(lev), E0))
+                Y = rng.normal(size=(len(lev), n)) + (1j * rng.normal(size=(len(lev), n)) if cplx else 0)
+                V = np.asarray(ss(Y, (0, 1)))
+                err = np.abs(Ed @ V - V @ H - Y @ Pk).max()
+                if not err < 1e-7 or not np.abs(V @ Pk - V).max() < 1e-7:
+                    fail("solvers", "direct solver (non-Hermitian, right-implicit): E V - V H != Y P", cplx=cplx, kind=kind, err=float(err))
+                Y = rng.normal(size=(n, len(lev))) + (1j * rng.normal(size=(n, len(lev))) if cplx else 0)
+                V = np.asarray(ss(Y, (1, 0)))
+                err = np.abs(H @ V - V @ Ed - Pk @ Y).max()
+                if not err < 1e-7 or not np.abs(Pk @ V - V).max() < 1e-7:
+                    fail("solvers", "direct solver (non-Hermitian, left-implicit): H V - V E != P Y", cplx=cplx, kind=kind, err=float(err))
+            except Exception as e:
+                fail("solvers", "direct solver / Green's function raised for a biorthogonal non-Hermitian problem", cplx=cplx, kind=kind, error=repr(e)[:300])
     # KPM solver with and without exactly known auxiliary vectors
     n = 30
     M = rng.normal(size=(n, n))
